@@ -159,6 +159,16 @@ int main()
       for (size_t i = 0; i < NI; i++) if (t[5] == IdxNames[i]) j = (int)i;
       int len = atoi(t[3].c_str());
       if (t[4] == "plain") w = 0; else if (t[4] == "tainted") w = 1; else if (t[4] == "tvol") w = 2;
+      if (len == 300 && e == 0 && (w == 0 || w == 1)) {
+        // arrays longer than the positive range of a narrow index type: a negative 8-bit index must not pass as "255 < 300"
+        i128 v = parse_dec(t[6]);
+#define LONGARR(NAME, TYPE)                                                                                              \
+        if (t[5] == NAME) return s ? (w ? index1<true, char, 300, TYPE, TAINTED>(v) : index1<true, char, 300, TYPE, PLAIN>(v))       \
+                                   : (w ? index1<false, char, 300, TYPE, TAINTED>(v) : index1<false, char, 300, TYPE, PLAIN>(v));
+        LONGARR("schar", signed char) LONGARR("char", char) LONGARR("short", short) LONGARR("int", int) LONGARR("uchar", unsigned char)
+#undef LONGARR
+        return "badop";
+      }
       if (s < 0 || e < 0 || j < 0 || w < 0 || len < 1 || len > (int)MAXL || !g_tab[s][e][len - 1][j][w]) return "badop";
       return g_tab[s][e][len - 1][j][w](parse_dec(t[6]));
     }
